@@ -139,15 +139,16 @@ Definition hobs_eqb (a b : hobs) : bool :=
   | OGet x, OGet y => optZ_eqb x y
   | OBool x, OBool y => Bool.eqb x y
   | OEntries x, OEntries y => all2 entry_eqb (sort_entries x) (sort_entries y)
-  | OFault, OFault | OBadKey, OBadKey => true
+  | OTypeErr, OTypeErr | OFault, OFault | OBadKey, OBadKey => true
   | _, _ => false
   end.
 Definition ht_agree (c : ht_case) : bool :=
   all2 hobs_eqb (t_run (hc_pool c) [] (hc_ops c)) (hc_obs c) &&
   (* the model's test on the pool is the implementation's *)
   all2 (all2 N.eqb) (map (fun a => map (fun b => b2n (test_fn (hc_test c) a b)) (hc_pool c)) (hc_pool c)) (hc_tobs c).
-(* the guard on which the observed behaviour is JUDGED: keys of the simple kinds, references consistent
-   (one cell one value; nil and t one word each), operations in range.  By simple_pool_ok (Proofs6) such a
+(* the guard on which the observed behaviour is JUDGED: keys of the simple kinds (lists included: the table
+   must refuse them with a type-error), references consistent (one cell one value; nil and t one word each),
+   operations in range.  By simple_pool_ok (Proofs6) such a
    pool satisfies pool_ok for eql, so the unchanged code is a finite map there by table_refines_map. *)
 Definition const_wordsb (a b : ref) : bool :=
   match r_obj a, r_obj b with
